@@ -71,7 +71,7 @@ func (commander *Commander) GetLedgerStore() Store {
 	return commander.store
 }
 
-func (commander *Commander) exec(ctx context.Context, parameters Parameters, script ledger.RunScript,
+func (commander *Commander) exec(ctx context.Context, parameters Parameters, script ledger.RunScript, logType ledger.LogType,
 	logComputer func(tx *ledger.Transaction, accountMetadata map[string]metadata.Metadata) *ledger.Log) (*ledger.ChainedLog, error) {
 
 	if script.Script.Plain == "" {
@@ -82,7 +82,7 @@ func (commander *Commander) exec(ctx context.Context, parameters Parameters, scr
 		script.Timestamp = ledger.Now()
 	}
 
-	execContext := newExecutionContext(commander, parameters)
+	execContext := newExecutionContext(commander, parameters, logType)
 	return execContext.run(ctx, func(executionContext *executionContext) (*ledger.ChainedLog, chan struct{}, error) {
 		if script.Reference != "" {
 			if err := commander.referencer.take(referenceTxReference, script.Reference); err != nil {
@@ -174,7 +174,7 @@ func (commander *Commander) exec(ctx context.Context, parameters Parameters, scr
 }
 
 func (commander *Commander) CreateTransaction(ctx context.Context, parameters Parameters, script ledger.RunScript) (*ledger.Transaction, error) {
-	log, err := commander.exec(ctx, parameters, script, ledger.NewTransactionLog)
+	log, err := commander.exec(ctx, parameters, script, ledger.NewTransactionLogType, ledger.NewTransactionLog)
 	if err != nil {
 		return nil, err
 	}
@@ -188,7 +188,7 @@ func (commander *Commander) CreateTransaction(ctx context.Context, parameters Pa
 }
 
 func (commander *Commander) SaveMeta(ctx context.Context, parameters Parameters, targetType string, targetID interface{}, m metadata.Metadata) error {
-	execContext := newExecutionContext(commander, parameters)
+	execContext := newExecutionContext(commander, parameters, ledger.SetMetadataLogType)
 	_, err := execContext.run(ctx, func(executionContext *executionContext) (*ledger.ChainedLog, chan struct{}, error) {
 		var (
 			log *ledger.Log
@@ -257,7 +257,7 @@ func (commander *Commander) RevertTransaction(ctx context.Context, parameters Pa
 		ledger.TxToScriptData(ledger.TransactionData{
 			Postings: rt.Postings,
 			Metadata: rt.Metadata,
-		}, force),
+		}, force), ledger.RevertedTransactionLogType,
 		func(tx *ledger.Transaction, accountMetadata map[string]metadata.Metadata) *ledger.Log {
 			return ledger.NewRevertedTransactionLog(tx.Timestamp, transactionToRevert.ID, tx)
 		})
@@ -300,7 +300,7 @@ func (commander *Commander) nextTXID(dryRun bool) *big.Int {
 }
 
 func (commander *Commander) DeleteMetadata(ctx context.Context, parameters Parameters, targetType string, targetID any, key string) error {
-	execContext := newExecutionContext(commander, parameters)
+	execContext := newExecutionContext(commander, parameters, ledger.DeleteMetadataLogType)
 	_, err := execContext.run(ctx, func(executionContext *executionContext) (*ledger.ChainedLog, chan struct{}, error) {
 		var (
 			log *ledger.Log
